@@ -936,6 +936,84 @@ def rule_r10(ctx) -> List[R.Inst]:
     return insts
 
 
+def rule_r11(ctx) -> List[R.Inst]:
+    """templates: an EXCLUDING type filter whose base sequence marks one position with a tag and leaves the others open (`object`)
+    states 'no <tag> anywhere in the sequence' only if the option expansion moves the tag to every position: ANY_ORDER does,
+    MIRROR reaches the first and the last position only (enough for length 2), no option reaches the first only.  Positions covered
+    are read off the options= expression; the length off the sequence display (`[T] + [object] * (n - 1)` is open-ended)."""
+    M = ctx.M
+    rid = "C20.R11"
+    insts = []
+    for q, fn in sorted(M.funcs.items()):
+        if not q.startswith("reamber.algorithms.pattern.combos.") or CTL_NAME in q or not fn.node.name.startswith("template_"):
+            continue
+        file = M.mods[fn.mod].rel
+        for c in walk_no_nested(fn.node):
+            if not (isinstance(c, ast.Call) and isinstance(c.func, ast.Attribute) and c.func.attr == "create" and unparse(c.func.value).endswith("PtnFilterType")):
+                continue
+            key = f"{short_q(q)}:type-filter"
+            kws = {k.arg: k.value for k in c.keywords}
+            seqs = c.args[0] if c.args else kws.get("types") or kws.get("types_")
+            opts, excl = kws.get("options"), kws.get("exclude")
+            if not (isinstance(seqs, ast.List) and len(seqs.elts) == 1) or opts is None or not isinstance(excl, ast.Constant):
+                insts.append(R.undec(rid, key, file, c.lineno, "type filter of a template is not `create([[..one sequence..]], options=.., exclude=<const>)`"))
+                continue
+            if excl.value is not True:
+                insts.append(R.ok(rid, key, file, c.lineno, idiom="including type filter: positions are meant as written"))
+                continue
+
+            def parts(e):
+                """-> (list of element names, open_ended) or None"""
+                if isinstance(e, ast.List) and all(isinstance(x, (ast.Name, ast.Attribute)) for x in e.elts):
+                    return [unparse(x) for x in e.elts], False
+                if isinstance(e, ast.BinOp) and isinstance(e.op, ast.Add):
+                    a, b = parts(e.left), parts(e.right)
+                    return None if a is None or b is None else (a[0] + b[0], a[1] or b[1])
+                if isinstance(e, ast.BinOp) and isinstance(e.op, ast.Mult):
+                    lst, k = (e.left, e.right) if isinstance(e.left, ast.List) else (e.right, e.left)
+                    a = parts(lst)
+                    if a is None:
+                        return None
+                    if isinstance(k, ast.Constant) and isinstance(k.value, int):
+                        return a[0] * k.value, a[1]
+                    return a[0], True                     # repeated a parameter-dependent number of times
+                return None
+            pr = parts(seqs.elts[0])
+            if pr is None:
+                insts.append(R.undec(rid, key, file, c.lineno, f"base sequence '{unparse(seqs.elts[0])[:60]}' is not a display of tags"))
+                continue
+            names, open_ended = pr
+            tags = [n for n in names if n != "object"]
+            if len(tags) != 1 or len(tags) == len(names):
+                insts.append(R.ok(rid, key, file, c.lineno, idiom="no single tag among open positions"))
+                continue
+            alts = [opts.body, opts.orelse] if isinstance(opts, ast.IfExp) else [opts]
+            bad = None
+            for a in alts:
+                flags = {x.attr for x in ast.walk(a) if isinstance(x, ast.Attribute) and x.attr.isupper()}
+                if any(isinstance(x, ast.Name) for x in ast.walk(a) if not (isinstance(x, ast.Name) and x.id in ("PtnFilterType",))) and not flags:
+                    bad = ("?", a)
+                    break
+                n_fixed = len(names)
+                covered_all = "ANY_ORDER" in flags or ("MIRROR" in flags and not open_ended and n_fixed <= 2) or (not open_ended and n_fixed == 1)
+                if not covered_all:
+                    bad = (sorted(flags), a)
+                    break
+            if bad and bad[0] == "?":
+                insts.append(R.undec(rid, key, file, c.lineno, f"options '{unparse(bad[1])[:60]}' are not flag constants"))
+            elif bad:
+                insts.append(R.viol(rid, key, file, opts.lineno,
+                                    f"the excluding type filter marks one position with '{tags[0].split('.')[-1]}' among "
+                                    f"{'n - 1' if open_ended else len(names) - 1} open ones and expands it with {bad[0] or 'no option'}: "
+                                    f"the tag reaches {'the first and last position' if 'MIRROR' in bad[0] else 'the first position'} only, so a sequence with "
+                                    f"a {tags[0].split('.')[-1]} at an inner position (length >= 3) is not excluded — extra combinations are reported",
+                                    construct=f"{short_q(q)}: exclude [{tags[0]}, object..] with {'|'.join(bad[0]) or '0'}"))
+            else:
+                insts.append(R.ok(rid, key, file, c.lineno, idiom=f"'{tags[0].split('.')[-1]}' excluded at every position (ANY_ORDER"
+                                                                   f"{'' if open_ended or len(names) > 2 else ' or MIRROR at length 2'})"))
+    return insts
+
+
 SPECS = [
     RuleSpec("C20.R1", rule_r1, 3, "A5", "Pattern.df is always offset-sorted with a positional index; positional unpack and record fields agree"),
     RuleSpec("C20.R2", rule_r2, 6, "A8", "skip grouped notes; the mask that marks is the mask that is appended; window shapes"),
@@ -947,6 +1025,7 @@ SPECS = [
     RuleSpec("C20.R9", rule_r9, 2, "A7", "AND_HIGHER / AND_LOWER generate the per-position ranges from the smallest / up to the largest given size"),
     RuleSpec("C20.R8", rule_r8, 1, "A7", "combined filters (a | b, a & b) are filters of the operands' class with the operands' parameters"),
     RuleSpec("C20.R10", rule_r10, 2, "A8", "a per-sequence accumulator of a filter is initialised inside the per-sequence loop"),
+    RuleSpec("C20.R11", rule_r11, 2, "A7", "templates: an excluding one-tag type filter is expanded to every position of the sequence"),
     RuleSpec("C20.D", rule_dep, 1, "M0", "rules of the shared code (timing engine, list classes, stacker) that the operations of this property reach"),
 ]
 
